@@ -83,12 +83,20 @@ def rename_ids(I, tag):
 
 def invalid_body(I, variant):
     inp = gen.render(I)
-    if variant % 3 == 0:
+    v = variant % 6
+    if v == 0:
         del inp["routes"]                                  # required field missing
-    elif variant % 3 == 1:
+    elif v == 1:
         inp["departures"][0]["route"] = "no_such_route"    # dangling reference
-    else:
+    elif v == 2:
         inp["vehicleTypes"] = "not a list"                 # wrong type
+    elif v == 3:
+        # loads, but is far outside the documented domain: fails inside the solver stages
+        inp["parameters"]["costs"]["staff"] = 10 ** 15
+    elif v == 4:
+        inp["parameters"]["costs"]["deadHeadTrip"] = 2 ** 62
+    else:
+        inp["deadHeadTrips"]["durations"] = [[0]]          # matrix does not match the locations
     return json.dumps(inp)
 
 
